@@ -278,6 +278,20 @@ func (r *replayer) render(n *vnode) (string, error) {
 			return "&" + s, nil
 		}
 		return fmt.Sprintf("func() %s { v := %s; return &v }()", r.typeStr(n.T), s), nil
+	case "bytesreader":
+		// *bytes.Reader{s, i, prevRune}: reconstruct through the public constructor
+		pn := n.Fields[0]
+		if len(pn.Fields) == 0 {
+			return "", fmt.Errorf("bytes.Reader pointee not expanded")
+		}
+		st := pn.Fields[0]
+		s, err := r.render(st.Fields[0])
+		if err != nil {
+			return "", err
+		}
+		i := toSigned(r.val(st.Fields[1]), 64)
+		r.imports["bytes"] = "bytes"
+		return fmt.Sprintf("func() *bytes.Reader { rd := bytes.NewReader(%s); rd.Seek(%s, 0); return rd }()", s, i.String()), nil
 	case "iface":
 		if r.val(n.Ref).Sign() == 0 {
 			return "nil", nil
@@ -288,7 +302,31 @@ func (r *replayer) render(n *vnode) (string, error) {
 }
 
 // TryReplay turns the solver model of a failed obligation into a Go test run against the real code.
-func TryReplay(l *Loaded, e *Engine, fr *FuncResult, r *OblResult, prop string) (res *ReplayResult) {
+// TryReplay replays the counterexample of a failed obligation against the real code. If the model of the
+// modular VC (callees by contract) does not reproduce, the function is re-executed with callee bodies
+// inlined in place of their contracts, which ties the callees' results to the concrete input.
+func TryReplay(l *Loaded, e *Engine, fr *FuncResult, r *OblResult, prop string) *ReplayResult {
+	res := tryReplayOnce(l, e, fr, r, prop)
+	if res.Confirmed || len(fr.Exec.usedContracts) == 0 {
+		return res
+	}
+	e2 := *e
+	e2.PreferInline = true
+	fn := fr.Exec.top
+	fr2 := e2.GenVCs(fn, e.Contracts[contractKey(fn)])
+	for _, ob := range fr2.Obligations {
+		if ob.Name() == r.Name {
+			res2 := tryReplayOnce(l, &e2, fr2, r, prop)
+			res2.Why = "[callee bodies inlined for replay] " + res2.Why
+			if res2.Confirmed || res.TestSrc == "" {
+				return res2
+			}
+		}
+	}
+	return res
+}
+
+func tryReplayOnce(l *Loaded, e *Engine, fr *FuncResult, r *OblResult, prop string) (res *ReplayResult) {
 	res = &ReplayResult{}
 	defer func() {
 		if p := recover(); p != nil {
@@ -305,7 +343,18 @@ func TryReplay(l *Loaded, e *Engine, fr *FuncResult, r *OblResult, prop string) 
 	st := &State{heap: map[string]*Term{}, ghost: map[string]*Term{}, alloc: x.c.Named("alloc0", SInt)}
 	rp.st = st
 	var nodes []*vnode
+	topFC := e.Contracts[contractKey(fn)]
 	for _, p := range fr.ParamTerms {
+		if topFC != nil && topFC.Dyn[p.Name] != "" {
+			// interface parameter with a declared dynamic type
+			if dt := x.lookupType(topFC.Dyn[p.Name]); dt != nil && typeName(dt) == "*bytes.Reader" {
+				n := &vnode{T: p.T, Kind: "bytesreader"}
+				pv := rp.build(dt, []*Term{p.V.L[1]}, 0)
+				n.Fields = []*vnode{pv}
+				nodes = append(nodes, n)
+				continue
+			}
+		}
 		nodes = append(nodes, rp.build(p.T, p.V.L, 0))
 	}
 	// re-solve the failing instance with the query terms named
